@@ -168,7 +168,9 @@ def gen_sm(ctx, rng):
         cls, (rng.choice(["sq", "id", "abs"]), rng.choice(["mean", "sum", "max"])))
     return dict(kind="sm", cls=cls, space=space, sets=sets, static=static, interval=interval, net=net, param=param,
                 data=data, resid=resid, ders=ders, err=err, red=red, calls=calls, weight=js(cc.dy(rng, 1, 8, 2)),
-                sampler="list", startup=gen_startup(rng, 0.25, 0.04))
+                sampler="list", startup=gen_startup(rng, 0.25, 0.04),
+                # options that are only stored on the condition (read by the Solver): track_gradients, name
+                track=(None if (ders or rng.random() < 0.5) else rng.random() < 0.5), cname="cond_" + rng.choice("abc"))
 
 
 def gen_aw(ctx, rng):
@@ -359,6 +361,108 @@ def judge_int(rep, case, res, replies):
                     return
 
 
+# ---- least exercised classes: ParameterCondition, HPM_EquationLoss_at_DataPoints (exact Python oracles only)
+
+def gen_misc(ctx, rng):
+    if rng.random() < 0.4:
+        pn = rng.choice(PARS)
+        vals = [js(cc.dy(rng)) for _ in range(rng.randint(1, 2))]
+        pen = gen_fn(rng, "penalty", [[pn, len(vals)]], 1, deg=2)
+        return dict(kind="misc", cls="parameter", param=[[pn, vals]], fn=pen, weight=js(cc.dy(rng, 1, 8, 2)))
+    xspace = gen_space(rng, VARS, 1, 2)
+    n = rng.randint(2, 6)
+    xs = []
+    while len(xs) < n:
+        r = [js(cc.dy(rng)) for _ in range(dim_of(xspace))]
+        if r not in xs:
+            xs.append(r)
+    param = [[rng.choice(PARS), [js(cc.dy(rng))]]] if rng.random() < 0.5 else []
+    resid = gen_fn(rng, "resid", list(xspace) + [[p[0], len(p[1])] for p in param], rng.randint(1, 2), deg=2)
+    if not set(resid["params"]) & {v for v, _ in xspace}:
+        resid["params"].insert(0, xspace[0][0])
+        resid["kwonly"] = 0
+    vn = next(v for v in resid["params"] if v in [a for a, _ in xspace])
+    resid["body"] = [["+", b, ["v", vn, 0]] for b in resid["body"]]
+    bs = rng.randint(1, n + 1)
+    full = rng.random() < 0.4
+    return dict(kind="misc", cls="hpmdata", xspace=xspace, xs=xs, bs=bs, param=param, fn=resid, norm=rng.choice([1, 2, 3, "inf"]),
+                root=rng.choice([1, 2, 3]), full=full, calls=1 if full else rng.randint(1, 2 * math.ceil(n / bs)))
+
+
+def run_misc(case):
+    C = classes()
+    tp, torch = C["tp"], C["torch"]
+    out = dict(losses=[], errors=[], args=[], outs=[])
+    try:
+        pn, pv = (case["param"][0] if case["param"] else (None, None))
+        par = tp.models.Parameter([float(F(v)) for v in pv], mk_space([[pn, len(pv)]])) if pn else None
+        fn = build_fn(C, case["fn"], out["args"], record_out=out["outs"])
+        if case["cls"] == "parameter":
+            cond = tp.conditions.ParameterCondition(par, fn, weight=float(F(case["weight"])))
+            out["weight_ok"] = cond.weight == float(F(case["weight"]))
+            out["registered"] = any(p is par.as_tensor for p in cond.parameters())
+            out["losses"].append(float(torch.sum(cond.forward())))
+            return out
+        X = mk_space(case["xspace"])
+        xin = tp.spaces.Points(torch.tensor([[float(F(v)) for v in r] for r in case["xs"]], dtype=torch.float64), X)
+        yout = tp.spaces.Points(torch.zeros(len(case["xs"]), 1, dtype=torch.float64), tp.spaces.R1("u"))
+        loader = tp.utils.PointsDataLoader((xin, yout), batch_size=case["bs"], shuffle=False)
+        model = C["PolyModel"](case["xspace"], [["u", 1]], [("c", F(0))])
+        kw = dict(parameter=par) if par is not None else {}
+        cond = tp.conditions.HPM_EquationLoss_at_DataPoints(model, loader, case["norm"], fn, root=float(case["root"]),
+                                                            use_full_dataset=case["full"], **kw)
+        for k in range(case["calls"]):
+            before = len(out["outs"])
+            out["losses"].append(float(cond.forward()))
+            out.setdefault("per_call", []).append(list(range(before, len(out["outs"]))))
+    except Exception as e:  # noqa
+        out["errors"].append(("run", classify_exc(e)))
+    return out
+
+
+def judge_misc(rep, case, res, replies):
+    rep.count("misc:" + case["cls"])
+    count_shapes(rep, [case["fn"]])
+    for where, what in res["errors"]:
+        rep.fail(f"{case['cls']} condition raised: {what}", case)
+    if res["errors"]:
+        return
+    if case["cls"] == "parameter":
+        env = {n: [F(v) for v in vs] for n, vs in case["param"]}
+        want = sum(eval_fn_spec(case["fn"], env))
+        if not close(res["losses"][0], float(want), 1e-6, 1e-9) or not res.get("weight_ok") or not res.get("registered"):
+            rep.fail(f"ParameterCondition returned {res['losses'][0]!r}; the penalty of the (registered, learnable) parameter by name is "
+                     f"{float(want)!r}", case)
+        return
+    rep.count(f"misc:hpmdata:norm={case['norm']}:root={case['root']}:{'full' if case['full'] else 'batch'}")
+    target_rows = {tuple(r) for r in prow(case["xs"])}
+    for k, idxs in enumerate(res.get("per_call", [])):
+        vals = []
+        for i in idxs:
+            # the residual must have been evaluated on rows of the data set, by name; its values reduce to ONE number per batch
+            a = res["args"][i]
+            n = max(len(v) for v in a.values())
+            rows = [tuple(v for nm, _ in case["xspace"] for v in expand(a[nm], n)[j]) if all(nm in a for nm, _ in case["xspace"]) else None
+                    for j in range(n)]
+            if any(r is not None and r not in target_rows for r in rows):
+                rep.fail("HPM_EquationLoss_at_DataPoints evaluated the residual on a row that is not in the data set", case)
+                return
+            un = [sum(v * v for v in r) for r in res["outs"][i]]
+            vals.append(sum(un) / len(un))
+        if not vals:
+            rep.fail(f"HPM_EquationLoss_at_DataPoints: forward call {k} never called the residual", case)
+            continue
+        if case["norm"] == "inf":
+            doc = max([F(0)] + vals) if case["full"] else vals[0]
+        else:
+            doc = sum(v ** case["norm"] for v in vals) / len(vals) if case["full"] else vals[0] ** case["norm"]
+        docv = float(doc) ** (1.0 / case["root"]) if case["root"] != 1 else float(doc)
+        tol = (1e-5, 0.0) if case["full"] else (1e-9, 0.0)
+        if not close(res["losses"][k], docv, *tol):
+            rep.fail(f"HPM_EquationLoss_at_DataPoints(norm={case['norm']}, root={case['root']}, full={case['full']}) call {k} returned "
+                     f"{res['losses'][k]!r}; the stated norm of the reduced squared residual per batch is {docv!r}", case)
+
+
 TP_SPACES = dict(interval=[["x", 1]], par2d=[["x", 2]], product=[["x", 1], ["t", 1]], dependent=[["x", 1], ["t", 1]])
 
 
@@ -538,6 +642,8 @@ def run_sm(case):
         user_dict[d["name"]] = build_fn(C, d, data_obs[d["name"]])
     resid = build_fn(C, case["resid"], obs.resid_args, ders=case["ders"], record_out=obs.resid_out)
     kw = dict(data_functions=user_dict, weight=float(F(case["weight"])))
+    if case.get("track") is not None:
+        kw.update(track_gradients=case["track"], name=case["cname"])
     if case["param"]:
         pn, pv = case["param"][0]
         kw["parameter"] = tp.models.Parameter([float(F(v)) for v in pv], mk_space([[pn, len(pv)]]))
@@ -573,6 +679,8 @@ def run_sm(case):
         out["errors"].append(("construct", classify_exc(e)))
         return out
     out["weight_ok"] = cond.weight == float(F(case["weight"]))
+    if case.get("track") is not None:
+        out["weight_ok"] = out["weight_ok"] and cond.track_gradients == case["track"] and cond.name == case["cname"]
     out["construct_points"] = list(rec.calls)
     out["data_calls_at_construct"] = {k: len(v) for k, v in data_obs.items()}
     if not do_startup(case, [cond], out, [obs.resid_args, obs.resid_out]):
@@ -896,11 +1004,18 @@ def gen_data(ctx, rng):
     bs = rng.randint(1, n + 1)
     nb = math.ceil(n / bs)
     full = rng.random() < 0.4
+    # value scale of outputs and targets: 2^-20 (about 1e-6) ... 2^20 (about 1e6); the stated norm is homogeneous,
+    # so it must come out right RELATIVELY on every scale (exact rational oracle, no absolute tolerance)
+    e = rng.choice([-20, -20, -10, 0, 0, 0, 10, 20])
     constrain = None
-    if rng.random() < 0.4:
+    if e == 0 and rng.random() < 0.4:
         constrain = gen_fn(rng, "constrain", out_space + xspace, dim_of(out_space), deg=2, allow_default=False)
+    if e != 0:
+        sc = F(2) ** e
+        net["body"] = [["*", ["c", js(sc)], b] for b in net["body"]]
+        ys = [[js(F(v) * sc) for v in r] for r in ys]
     return dict(kind="data", xspace=xspace, net=net, xs=xs, ys=ys, bs=bs, norm=rng.choice([1, 2, 2, 3, "inf"]),
-                root=rng.choice([1, 1, 2, 3]), full=full, constrain=constrain,
+                root=rng.choice([1, 1, 2, 2, 3]), full=full, constrain=constrain, scale_exp=e,
                 calls=rng.randint(1, 2) if full else rng.randint(1, 2 * nb + 1))
 
 
@@ -959,7 +1074,9 @@ def judge_data(rep, case, res, replies):
     nb = len(res["batches"])
     if not case["full"] and case["calls"] > nb:
         rep.count("data:iterator-restarted")
-    tol = (1e-5, 1e-6) if case["full"] else (1e-9, 1e-12)    # the full-data-set accumulator is a float32 tensor
+    rep.count(f"data:value-scale=2^{case.get('scale_exp', 0)}")
+    # relative comparison only (values live on scales 1e-6 ... 1e6); the full-data-set accumulator is a float32 tensor
+    tol = (1e-5, 0.0) if case["full"] else (1e-9, 0.0)
     for k in range(case["calls"]):
         seen = res["seen"][k]
         # oracle: |model - target|, paired by the input row the model actually saw, in the stated norm
@@ -1566,10 +1683,10 @@ def judge_don(rep, case, res, replies):
 
 # ------------------------------------------------------------------------------------------------
 
-GEN = dict(sm=gen_sm, data=gen_data, per=gen_per, don=gen_don, int=gen_int)
-RUN = dict(sm=run_sm, data=run_data, per=run_per, don=run_don, int=run_int)
-LINES = dict(sm=lines_sm, data=lines_data, per=lines_per, don=lines_don, int=lines_int)
-JUDGE = dict(sm=judge_sm, data=judge_data, per=judge_per, don=judge_don, int=judge_int)
+GEN = dict(sm=gen_sm, data=gen_data, per=gen_per, don=gen_don, int=gen_int, misc=gen_misc)
+RUN = dict(sm=run_sm, data=run_data, per=run_per, don=run_don, int=run_int, misc=run_misc)
+LINES = dict(sm=lines_sm, data=lines_data, per=lines_per, don=lines_don, int=lines_int, misc=lambda c, r: [])
+JUDGE = dict(sm=judge_sm, data=judge_data, per=judge_per, don=judge_don, int=judge_int, misc=judge_misc)
 
 
 def gen_cases(ctx):
@@ -1589,6 +1706,8 @@ def gen_cases(ctx):
         cases.append(gen_int(ctx, rng))
     for _ in range(ctx.scale(30, 350)):
         cases.append(gen_aw(ctx, rng))
+    for _ in range(ctx.scale(40, 450)):
+        cases.append(gen_misc(ctx, rng))
     return cases
 
 
